@@ -1397,4 +1397,49 @@ theorem scroll_speed_perm_nosv {bpms bpms' : List Tp} (svs svs' : List Sv) (omin
 
 end SpeedNoSv
 
+section HistoriesAnySort
+open Reamber.Analysis
+
+/-- the row order a history ends with when `sorted()` is ANY function that returns a permutation of its input
+(`DataFrame.sort_values` with pandas' default, unstable, sort is one: which of several tied rows comes first is
+not determined) -/
+def Hist.runWith {α} (sortF : List α → List α) : Hist α → List α
+  | .construct rows => rows
+  | .appendItem h x => h.runWith sortF ++ [x]
+  | .concat a b => a.runWith sortF ++ b.runWith sortF
+  | .sorted h rev => if rev then (sortF (h.runWith sortF)).reverse else sortF (h.runWith sortF)
+  | .reverseSlice h => (h.runWith sortF).reverse
+  | .rotate h k => (h.runWith sortF).drop k ++ (h.runWith sortF).take k
+  | .maskReappend h m => (h.runWith sortF).filter m ++ (h.runWith sortF).filter (fun a => !m a)
+  | .handOn h => h.runWith sortF
+
+/-- every history ends with a permutation of the rows put in, whatever (permuting) function `sorted()` is -/
+theorem hist_perm_with {α} (sortF : List α → List α) (hs : ∀ l, (sortF l).Perm l) (h : Hist α) :
+    (h.runWith sortF).Perm h.items := by
+  induction h with
+  | construct rows => exact List.Perm.refl _
+  | appendItem h x ih => exact List.Perm.append ih (List.Perm.refl _)
+  | concat a b iha ihb => exact List.Perm.append iha ihb
+  | sorted h rev ih =>
+    simp only [Hist.runWith, Hist.items]
+    split
+    · exact (List.reverse_perm _).trans ((hs _).trans ih)
+    · exact (hs _).trans ih
+  | reverseSlice h ih => exact (List.reverse_perm _).trans ih
+  | rotate h k ih =>
+    simp only [Hist.runWith, Hist.items]
+    exact (List.perm_append_comm.trans (List.take_append_drop k _ ▸ List.Perm.refl _)).trans ih
+  | maskReappend h m ih =>
+    simp only [Hist.runWith, Hist.items]
+    exact (List.filter_append_perm m _).trans ih
+  | handOn h ih => exact ih
+
+/-- dominant bpm over histories with any `sorted()` -/
+theorem dominant_bpm_hist_with (sortF : List Tp → List Tp) (hs : ∀ l, (sortF l).Perm l) (h : Hist Tp) (L : Rat)
+    (ht : TiesEqual (fun p : Tp => p.time) h.items) :
+    dominantBpm (h.runWith sortF) L = dominantBpm h.items L :=
+  (dominant_bpm_perm L ht (hist_perm_with sortF hs h).symm).symm
+
+end HistoriesAnySort
+
 end Reamber.PermInv
